@@ -160,8 +160,10 @@ func (g *gen) esdsPayload() []byte {
 	if g.pct("esds:ocr", 8) {
 		flags |= 0x20
 	}
-	if g.hostile("esds:url", 15) {
-		flags |= 0x40 // URL_Flag shall be 0 in MP4 files
+	if g.hostile("esds:url", 15) || g.pct("esds:urlflag", 4) {
+		// URL_Flag "shall be 0" in MP4 files (14496-14), but 14496-1 defines the field and the decoders accept it:
+		// drawn rarely so that the three optional fields also occur together
+		flags |= 0x40
 	}
 	es.u16(g.pickInt("esds:esid", 0, 0, 1, 2)).u8(flags | g.pickInt("esds:priority", 0, 0, 16))
 	if flags&0x80 != 0 {
